@@ -66,6 +66,13 @@ from rbql import rbql_engine
 
 mode = sys.argv[1]
 arg = json.loads(sys.stdin.read())
+REAL_STDOUT, REAL_STDERR, REAL_STDIN = sys.stdout, sys.stderr, sys.stdin
+
+def std_streams_problem():
+    # interpreter-wide objects a query has no business replacing: checked after every run, restored so that the report still gets out
+    bad = [n for n, o, r in (('sys.stdout', sys.stdout, REAL_STDOUT), ('sys.stderr', sys.stderr, REAL_STDERR), ('sys.stdin', sys.stdin, REAL_STDIN)) if o is not r]
+    sys.stdout, sys.stderr, sys.stdin = REAL_STDOUT, REAL_STDERR, REAL_STDIN
+    return bad
 
 def canon(v):
     if isinstance(v, float): return ['f', repr(v)]
@@ -172,6 +179,11 @@ elif mode == 'interleave':
             sys.stdout.flush()
             import os
             os._exit(0)
+        replaced = std_streams_problem()
+        if replaced:
+            bad.append({'schedule': sched_list, 'query': qa['text'], 'solo': 'leaves the standard streams of the interpreter alone', 'interleaved': 'after the two queries finished, %s is another object than before' % ', '.join(replaced),
+                        'other_query': qb['text']})
+            break
         switches = sum(1 for i in range(1, len(sched_list)) if sched_list[i] != sched_list[i - 1])
         if switches >= 3: alternating += 1
         for i, q in ((0, qa), (1, qb)):
@@ -199,6 +211,9 @@ elif mode in ('history', 'shared-history'):
                 q = pool[qi]
                 got = run_one(q['text'], q['table'], q['btable'], None, 0, q.get('header'), q.get('bheader'), q.get('init', ''), shared)
                 want = {k: v for k, v in q['solo'].items() if k != 'steps'}
+                replaced = std_streams_problem()
+                if replaced and len(bad) < 3:
+                    got = dict(got, standard_streams_replaced=replaced)
                 if got != want and len(bad) < 3:
                     bad.append({'sequence': [pool[j]['text'] for j in seq], 'position': pos, 'query': q['text'], 'table': q['table'], 'header': q.get('header'),
                                 'btable': q['btable'], 'bheader': q.get('bheader'), 'fresh': want, 'in_sequence': got,
